@@ -131,6 +131,53 @@ pub fn frag_err_buffer_untouched() {
     }
 }
 
+/// encap_ext with ONE mandatory extension whose data length is symbolic up to 5000 bytes
+/// (so that the extension alone can exceed a GSE packet), lattice lengths for PDU and
+/// buffer: no panic, and on Err the sender state is unchanged (every error return after the
+/// re-use bookkeeping, including "the extensions alone do not fit").
+#[kani::proof]
+#[kani::unwind(8)]
+pub fn encap_ext_big_mandatory_lattice() {
+    let pdu_len = any_len(BIG);
+    let buf_len = any_len(BIG);
+    let ext_len = any_len(5000);
+    let pdu_v = zeros(pdu_len);
+    let mut buf_v = zeros(buf_len);
+    let ext_v = zeros(ext_len);
+    let id: u8 = kani::any();
+    let e = match dvb_gse_rust::header_extension::Extension::new(id as u16, &ext_v[..]) {
+        Ok(e) => e,
+        Err(_) => {
+            assert!(false, "C13.extension_new_accepts_valid");
+            return;
+        }
+    };
+    let label = any_label();
+    let ptype: u16 = kani::any();
+    let mut enc = any_encapsulator();
+    let before = enc.verif_parts();
+    let md = EncapMetadata::new(ptype, label);
+    let exts = core::mem::ManuallyDrop::new(vec![e]);
+    let r = enc.encap_ext(&pdu_v[..], kani::any(), md, &mut buf_v[..], core::mem::ManuallyDrop::into_inner(exts));
+    let after = enc.verif_parts();
+    match &r {
+        Err(e) => {
+            assert!(state_eq(&before, &after), "C09.encap_ext_err_state_unchanged");
+            kani::cover!(*e == EncapError::ErrorPduLength && ext_len > 4090 && pdu_len < 100 && before.0, "extensions_alone_do_not_fit");
+            kani::cover!(*e == EncapError::ErrorSizeBuffer && before.0, "err_size");
+        }
+        Ok(EncapStatus::CompletedPkt(n)) => {
+            assert!(*n as usize <= buf_len && *n as usize <= 4097, "C06.lattice_complete_len_bounds");
+            kani::cover!(ext_len > 4000, "complete_with_big_extension");
+        }
+        Ok(EncapStatus::FragmentedPkt(n, _)) => {
+            assert!(*n as usize <= buf_len && *n as usize <= 4097, "C06.lattice_first_len_bounds");
+            kani::cover!(ext_len > 4000, "first_with_big_extension");
+        }
+    }
+    core::mem::forget(enc);
+}
+
 #[cfg(feature = "twins")]
 #[kani::proof]
 #[kani::unwind(8)]
